@@ -4,9 +4,9 @@ From PV Require Import Base.PyData C08.Model C08.ProofsDomain.
 Import ListNotations.
 
 (* first-order absorption, 2 peripherals, lag time, NONMEM-like environment *)
-Definition ex1 : sk := mkSk FO 0 2 EFO true true false false true.
+Definition ex1 : sk := mkSk FO 0 2 EFO true true false false true false.
 (* a bolus transit chain of 3 without depot, mixed elimination *)
-Definition ex2 : sk := mkSk INST 3 1 EMIX false false true true true.
+Definition ex2 : sk := mkSk INST 3 1 EMIX false false true true true true.
 
 (* valid, guarded, and the step really does something: 3 transits in front of the depot after
    removing the lag time is NOT guarded (stale lag), without lag it is *)
@@ -18,20 +18,21 @@ Proof. repeat split; vm_compute; reflexivity. Qed.
 
 Example guard_all_conjuncts_can_hold :
   forallb (fun f => guard f ex2)
-    [AbsInst; AbsFO; AbsZO; ElFO; ElZO; ElMM; ElMix; LagOn; LagOff; PerAdd; PerSet 3; Transits 0 true; Transits 5 false] = true.
-Proof. vm_compute. reflexivity. Qed.
+    [AbsInst; AbsFO; AbsZO; ElFO; ElZO; ElMM; ElMix; LagOn; LagOff; BioOn; BioOff; PerAdd; PerSet 3; Transits 5 true; Transits 5 false] = true
+  /\ guard (Transits 0 true) ex2 = false /\ guard (Transits 0 true) (with_biob ex2 false) = true.
+Proof. repeat split; vm_compute; reflexivity. Qed.
 
 (* the build of a non-trivial skeleton and what the detectors say about it *)
 Example detect_example :
-  detect (build ex2) = mkDet (Some FO) (Some EMIX) 3 None 1 false
+  detect (build ex2) = mkDet (Some FO) (Some EMIX) 3 None 1 false true
   /\ length (g_nodes (build ex2)) = 5 /\ length (g_edges (build ex2)) = 6.
 Proof. repeat split; vm_compute; reflexivity. Qed.
 
 (* one transit in front of a depot is a transit; in front of central it is read as the depot *)
 Example single_transit_reading :
-  detect (build (mkSk FO 1 0 EFO false true true false true)) = mkDet (Some FO) (Some EFO) 1 (Some NDepot) 0 false
-  /\ detect (build (mkSk INST 1 0 EFO false true true false true)) = mkDet (Some FO) (Some EFO) 0 (Some (NTransit 1)) 0 false
-  /\ valid (mkSk INST 1 0 EFO false true true false true) = false.
+  detect (build (mkSk FO 1 0 EFO false true true false true false)) = mkDet (Some FO) (Some EFO) 1 (Some NDepot) 0 false false
+  /\ detect (build (mkSk INST 1 0 EFO false true true false true false)) = mkDet (Some FO) (Some EFO) 0 (Some (NTransit 1)) 0 false false
+  /\ valid (mkSk INST 1 0 EFO false true true false true false) = false.
 Proof. repeat split; vm_compute; reflexivity. Qed.
 
 (* idempotence hypothesis: a feature request (not an increment), with a real effect *)
@@ -47,20 +48,24 @@ Example undo_nontrivial :
   /\ guard (Transits 0 true) (with_tr (with_lagb ex1 false) 3) = true
   /\ step (Transits 0 true) (with_tr (with_lagb ex1 false) 3) = SOk (with_lagb ex1 false)
   /\ undo_of PerAdd ex2 = Some PerRem /\ guard PerRem (with_per ex2 2) = false
-  /\ guard PerRem (with_per (mkSk INST 3 1 EMIX false false true false true) 2) = true.
+  /\ guard PerRem (with_per (mkSk INST 3 1 EMIX false false true false true false) 2) = true.
 Proof. repeat split; vm_compute; reflexivity. Qed.
 
 (* the documented refusal is reachable under the guard *)
 Example refusal_nontrivial :
-  valid (mkSk INST 0 1 EFO false false false false true) = true
-  /\ guard (Transits 1 true) (mkSk INST 0 1 EFO false false false false true) = true
-  /\ step (Transits 1 true) (mkSk INST 0 1 EFO false false false false true) = SRefuse
-  /\ setter_graph (Transits 1 true) (build (mkSk INST 0 1 EFO false false false false true)) = Refuse
-  /\ step (Transits 1 false) (mkSk FO 0 0 EFO false true false false true) = SRefuse.
+  valid (mkSk INST 0 1 EFO false false false false true false) = true
+  /\ guard (Transits 1 true) (mkSk INST 0 1 EFO false false false false true false) = true
+  /\ step (Transits 1 true) (mkSk INST 0 1 EFO false false false false true false) = SRefuse
+  /\ setter_graph (Transits 1 true) (build (mkSk INST 0 1 EFO false false false false true false)) = Refuse
+  /\ step (Transits 1 false) (mkSk FO 0 0 EFO false true false false true false) = SRefuse.
 Proof. repeat split; vm_compute; reflexivity. Qed.
 
 (* the bounded domain of setter_refines_partial is not trivial *)
+Definition ex3 : sk := mkSk SEQ 4 3 EZO false true true false true true.
 Example domain_nontrivial :
-  s_transits ex2 <= 6 /\ s_periph ex2 <= 3 /\ req_bounded 7 4 (Transits 7 false) /\ length (reqs 7 4) = 33
-  /\ refines (Transits 4 false) ex2 = true /\ refines AbsSeq ex1 = true.
+  s_transits ex3 <= 5 /\ s_periph ex3 <= 3 /\ req_bounded 6 4 (Transits 6 false)
+  /\ env_default (Transits 6 false) ex3 = true /\ valid ex3 = true
+  /\ refines (Transits 6 false) ex3 = true /\ step (Transits 6 false) ex3 = SCrash CDupParam
+  /\ env_default AbsSeq (mkSk FO 0 2 EFO true true false false true false) = true
+  /\ refines AbsSeq (mkSk FO 0 2 EFO true true false false true false) = true.
 Proof. repeat split; try (vm_compute; reflexivity); cbn; repeat constructor. Qed.
